@@ -4,6 +4,7 @@ the BED / GFF reader models return (the same text as `fioRec`/`fioErr`/`fioReadA
 harness/props/c02.go) and parsing of the harness tokens.  Core-only.
 -/
 import Biogo.Go.Wire
+import Biogo.Go.TimeDate
 import Biogo.Spec.FeatIO
 
 namespace Biogo.Drive.FeatCommon
@@ -120,7 +121,8 @@ def mkOracles (toks : List String) (ff : Option (Nat × Bytes) := none) : Gff.Or
     formatFloat := fun x => match ff with
       | some (bits, txt) => if bits == x then txt else []
       | none => [],
-    parseDate := fun b => d.contains b }
+    -- exact model of time.Parse("2006-1-02", ·); the harness's list `d:` is cross-checked by op `dt`
+    parseDate := fun b => let _ := d; Biogo.Go.TimeDate.dateOK b }
 
 /-- split an observation at `" | "` -/
 def sections (obs : String) : List String := obs.splitOn " | "
